@@ -444,6 +444,12 @@ func (r *runner) checkMerged(entry string, tg target) {
 func Run(k *fw.Case) {
 	g := NewGen(k.Rng)
 	t := g.Next()
+	if k.Index%DeepEvery == DeepAt {
+		t = g.Deep(k.Index / DeepEvery)
+	}
+	if k.Replay {
+		fmt.Printf("C10 case %d: class=%s how=%q text=%q\n", k.Index, t.Class, t.How, t.S)
+	}
 	kn := g.Known
 	r := &runner{k: k, g: g, t: t}
 	r.universe = distinctNames(append(append(append([]string{}, kn.Names()...), t.Names...), "no_such_rule"))
